@@ -3,8 +3,8 @@ package tbtc
 // C38 (part 1 of 2): the real walletRegistry + walletStorage + signer
 // marshaling on a simulated disk. Histories, fault enumeration and oracle:
 // verifadapt.RunRegistryScenario. Signers use the package's tECDSA key-share
-// fixtures (member m -> fixture share m-1) under three distinct wallet public
-// keys.
+// fixtures (member m -> fixture share m-1) under four wallet public keys
+// (two ordinary ones, one with a short X and one with a short Y coordinate).
 
 import (
 	"crypto/ecdsa"
@@ -25,7 +25,7 @@ import (
 )
 
 const (
-	c38Wallets = 3
+	c38Wallets = 4
 	c38Members = 3
 )
 
@@ -44,10 +44,27 @@ func c38Load() {
 		for i := range data {
 			c38Shares = append(c38Shares, tecdsa.NewPrivateKeyShare(data[i]))
 		}
-		for e := 0; e < c38Wallets; e++ {
-			x, y := tecdsa.Curve.ScalarBaseMult(big.NewInt(int64(1000 + 37*e)).Bytes())
-			c38Pubs = append(c38Pubs, &ecdsa.PublicKey{Curve: tecdsa.Curve, X: x, Y: y})
+		// wallets 0,1: ordinary keys; wallet 2: a key whose X coordinate has a
+		// leading zero byte; wallet 3: one whose Y coordinate has (about 1 key
+		// in 128 each - encodings that drop the left padding break on them).
+		byteLen := (tecdsa.Curve.Params().BitSize + 7) / 8
+		var shortX, shortY *ecdsa.PublicKey
+		for k := int64(1); k < 100000 && (shortX == nil || shortY == nil || len(c38Pubs) < 2); k++ {
+			x, y := tecdsa.Curve.ScalarBaseMult(big.NewInt(k).Bytes())
+			pub := &ecdsa.PublicKey{Curve: tecdsa.Curve, X: x, Y: y}
+			switch {
+			case len(x.Bytes()) < byteLen && len(y.Bytes()) == byteLen && shortX == nil:
+				shortX = pub
+			case len(y.Bytes()) < byteLen && len(x.Bytes()) == byteLen && shortY == nil:
+				shortY = pub
+			case len(x.Bytes()) == byteLen && len(y.Bytes()) == byteLen && k >= 1000 && len(c38Pubs) < 2:
+				c38Pubs = append(c38Pubs, pub)
+			}
 		}
+		if shortX == nil || shortY == nil || len(c38Pubs) < 2 {
+			panic("c38: no wallet keys with short coordinates found")
+		}
+		c38Pubs = append(c38Pubs, shortX, shortY)
 	})
 }
 
